@@ -250,6 +250,8 @@ Fixpoint later_ok (P:list entry) : Prop :=
   | e :: t => (forall e', In e' t -> e_mid e' <> e_fin e) /\ later_ok t
   end.
 
+Lemma keys_cons {V} (k:name) (v:V) l : d_keys ((k, v) :: l) = k :: d_keys l.
+Proof. reflexivity. Qed.
 Lemma keys_tab P : d_keys (tab P) = mids P.
 Proof. unfold d_keys, tab, mids. rewrite map_map. reflexivity. Qed.
 Lemma keys_ftab P : d_keys (ftab P) = fins P.
@@ -388,4 +390,139 @@ Proof.
         split; [exact NDM|]. split.
         { cbn [fins map e_fin e fst snd d_keys]. rewrite SK. f_equal. exact FQ. }
         split; [cbn [map e_fld e snd]; f_equal; exact FL|]. split; assumption.
+Qed.
+
+(* ------------------------------------------------------------------ second pass *)
+Lemma pass2_ok g fr : forall todo s D,
+  NoDup (d_keys (h5_grp s g)) ->
+  same_map (h5_grp s g) (ftab D ++ tab todo) ->
+  NoDup (fins D ++ mids todo) -> NoDup (fins D ++ fins todo) ->
+  later_ok todo -> (forall e, In e todo -> frprop fr e) ->
+  exists s', rename_pass2 g fr (tab todo) (ftab D) s = (s', Ok (ftab (D ++ todo))) /\
+             same_but_grp s s' g /\ NoDup (d_keys (h5_grp s' g)) /\ same_map (h5_grp s' g) (ftab (D ++ todo)).
+Proof.
+  induction todo as [|e rest IH]; intros s D NDH SM NM NF LO FR.
+  - exists s. cbn [rename_pass2 tab map ret]. rewrite !app_nil_r in *. split; [reflexivity|]. split; [apply sbg_refl|]. split; assumption.
+  - destruct e as [[w v] f]. change (tab (((w, v), f) :: rest)) with ((w, f) :: tab rest) in *. cbn [rename_pass2].
+    cbn [mids fins map e_mid e_fin fst snd] in NM, NF. cbn [later_ok] in LO. destruct LO as [LO1 LO2].
+    assert (WD : ~ In w (fins D)).
+    { intros I. apply NoDup_remove_2 in NM. apply NM. apply in_app_iff. left. exact I. }
+    assert (VD : ~ In v (fins D)).
+    { intros I. apply NoDup_remove_2 in NF. apply NF. apply in_app_iff. left. exact I. }
+    assert (VR : ~ In v (mids rest)).
+    { intros I. apply in_map_iff in I. destruct I as (e' & E' & I'). apply (LO1 e' I'). exact E'. }
+    assert (FD : d_find (ftab D) v = None) by (apply d_find_None; rewrite keys_ftab; exact VD).
+    assert (HW : d_find (h5_grp s g) w = Some f).
+    { rewrite (SM w), d_find_app. rewrite (proj2 (d_find_None (ftab D) w)) by (rewrite keys_ftab; exact WD).
+      cbn [d_find]. rewrite name_eqb_refl. reflexivity. }
+    assert (NEXT : forall s1, NoDup (d_keys (h5_grp s1 g)) -> same_but_grp s s1 g ->
+                     same_map (h5_grp s1 g) (ftab (D ++ [((w, v), f)]) ++ tab rest) ->
+                     exists s', rename_pass2 g fr (tab rest) (ftab D ++ [(v, f)]) s1 = (s', Ok (ftab (D ++ ((w, v), f) :: rest))) /\
+                                same_but_grp s s' g /\ NoDup (d_keys (h5_grp s' g)) /\
+                                same_map (h5_grp s' g) (ftab (D ++ ((w, v), f) :: rest))).
+    { intros s1 ND1 SB1 SM1.
+      destruct (IH s1 (D ++ [((w, v), f)])) as (s' & R & SB & NDH' & SM').
+      - exact ND1.
+      - exact SM1.
+      - rewrite fins_app. cbn [fins map e_fin fst snd]. rewrite <- app_assoc. cbn [app].
+        destruct (name_dec w v) as [<-|NE]; [exact NM|].
+        eapply NoDup_rekey; [exact NM|]. intros I. apply in_app_iff in I. destruct I as [I|[I|I]]; contradiction.
+      - rewrite fins_app. cbn [fins map e_fin fst snd]. rewrite <- app_assoc. exact NF.
+      - exact LO2.
+      - intros e0 I0. apply FR. right. exact I0.
+      - exists s'. rewrite ftab_app in R. cbn [ftab map e_fin e_fld fst snd] in R. rewrite <- app_assoc in R, SM'. cbn [app] in R, SM'.
+        split; [exact R|]. split; [eapply sbg_trans; eassumption|]. split; assumption. }
+    destruct (FR ((w, v), f) (or_introl eq_refl)) as [Fw|[Fw Ewv]]; cbn [e_mid e_fin fst snd] in *.
+    + rewrite Fw.
+      assert (DST : w = v \/ d_find (h5_grp s g) v = None).
+      { destruct (name_dec w v) as [->|NE]; [left; reflexivity|right].
+        rewrite (SM v). apply d_find_None. rewrite d_keys_app, keys_ftab, keys_cons, keys_tab.
+        intros I. apply in_app_iff in I. destruct I as [I|[I|I]]; [contradiction | congruence | contradiction]. }
+      destruct (h5_move_ok s g w v f NDH HW DST) as (s1 & M1 & SB1 & ND1 & F1).
+      unfold bindM at 1. rewrite M1. rewrite (d_set_new (ftab D) v f FD).
+      apply (NEXT s1 ND1 SB1).
+      intros x. rewrite (F1 x), ftab_app. cbn [ftab map e_fin e_fld fst snd]. rewrite <- app_assoc. cbn [app].
+      rewrite (find_rekey (ftab D) (tab rest) w v f x).
+      * rewrite <- (SM x). reflexivity.
+      * rewrite d_keys_app, keys_ftab, keys_cons, keys_tab. exact NM.
+      * destruct (name_dec w v) as [->|NE]; [left; reflexivity|right].
+        rewrite d_keys_app, keys_ftab, keys_cons, keys_tab.
+        intros I. apply in_app_iff in I. destruct I as [I|[I|I]]; [contradiction | congruence | contradiction].
+    + rewrite Fw. subst v. rewrite (d_set_new (ftab D) w f FD).
+      apply (NEXT s NDH (sbg_refl s g)).
+      intros x. rewrite (SM x), ftab_app. cbn [ftab map e_fin e_fld fst snd]. rewrite <- app_assoc. reflexivity.
+Qed.
+
+(* ------------------------------------------------------------------ DataFrame.rename *)
+Definition renamed (m:ndict) (cols:alist) : alist := map (fun kf => (subst m (fst kf), snd kf)) cols.
+
+Lemma ftab_renamed m : forall Q cols,
+  fins Q = map (subst m) (d_keys cols) -> map e_fld Q = map snd cols -> ftab Q = renamed m cols.
+Proof.
+  induction Q as [|[[w v] f] Q IH]; destruct cols as [|[k x] cols]; cbn; intros H1 H2; try discriminate; [reflexivity|].
+  inversion H1; inversion H2; subst. f_equal. apply IH; assumption.
+Qed.
+
+Lemma remove_keys_res : forall ks keys, (exists r, remove_keys keys ks = Ok r) \/ remove_keys keys ks = Raise E_KeyError.
+Proof.
+  induction ks as [|k t IH]; intros keys; cbn [remove_keys]; [left; eauto|].
+  destruct (nmem k keys); [apply IH | right; reflexivity].
+Qed.
+
+Lemma length0_nil {A} (l:list A) : (length l =? 0)%nat = true -> l = [].
+Proof. destruct l; cbn; [reflexivity | discriminate]. Qed.
+
+Theorem df_rename_run c g m s :
+  fix_a c = true -> df_ok s g ->
+  (exists e, df_rename c g m s = (s, Raise e)) \/
+  (exists s1, same_but_grp s s1 g /\
+     df_rename c g m s = (set_py_cols s1 (fupd (py_cols s1) g (renamed m (py_cols s g))), Ok tt) /\
+     NoDup (d_keys (h5_grp s1 g)) /\ same_map (h5_grp s1 g) (renamed m (py_cols s g)) /\
+     NoDup (map (subst m) (d_keys (py_cols s g)))).
+Proof.
+  intros FA [ND1 ND2 SM FL].
+  assert (DR : df_rename c g m s =
+     match remove_keys (d_keys (py_cols s g)) (d_keys m) with
+     | Ok keys => if negb (length (clash_list keys (map snd m) []) =? 0)%nat then (s, Raise E_ValueError)
+                  else bindM (rename_pass1 (fix_a c) g m (py_cols s g) (d_keys (py_cols s g)) [] [])
+                         (fun p => bindM (rename_pass2 g (fst p) (snd p) [])
+                                     (fun final => modify (fun s0 => set_py_cols s0 (fupd (py_cols s0) g final)))) s
+     | OOB x => (s, OOB x) | Raise e => (s, Raise e) | OutOfFuel => (s, OutOfFuel)
+     end).
+  { unfold df_rename. unfold bindM at 1. unfold mget at 1. cbv zeta. unfold bindM at 1. unfold liftR at 1.
+    destruct (remove_keys (d_keys (py_cols s g)) (d_keys m)); try reflexivity.
+    destruct (negb (length (clash_list a (map snd m) []) =? 0)%nat); reflexivity. }
+  rewrite DR. clear DR.
+  destruct (remove_keys_res (d_keys m) (d_keys (py_cols s g))) as [[rest R]|R]; rewrite R; [|left; eauto].
+  destruct (length (clash_list rest (map snd m) []) =? 0)%nat eqn:C; cbn [negb]; [|left; eexists; reflexivity].
+  apply length0_nil in C.
+  pose proof (subst_NoDup m _ rest ND1 R C) as NS.
+  rewrite FA.
+  destruct (pass1_ok g m (py_cols s g) s (d_keys (py_cols s g)) [] []) as (s1 & fr' & Q & R1 & SB1 & NDH1 & SM1 & NDM & FQ & FL1 & FR1 & LO1).
+  - exact ND2.
+  - intros k. cbn [tab map app]. symmetry. apply SM.
+  - exact ND1.
+  - cbn. apply incl_refl.
+  - intros ? [].
+  - intros ? [].
+  - intros ? [].
+  - exact I.
+  - exact NS.
+  - cbn [app] in R1, SM1, NDM, FR1, LO1.
+    destruct (pass2_ok g fr' Q s1 []) as (s2 & R2 & SB2 & NDH2 & SM2).
+    + exact NDH1.
+    + exact SM1.
+    + exact NDM.
+    + cbn [fins map app]. change (map e_fin Q) with (fins Q). rewrite FQ. exact NS.
+    + exact LO1.
+    + exact FR1.
+    + right. exists s2. cbn [app] in R2, SM2. rewrite (ftab_renamed m Q (py_cols s g) FQ FL1) in R2, SM2.
+      split; [eapply sbg_trans; eassumption|]. split.
+      * unfold bindM at 1.
+        change (rename_pass1 true g m (py_cols s g) (d_keys (py_cols s g)) [] [] s)
+          with (rename_pass1 true g m (py_cols s g) (d_keys (py_cols s g)) [] (tab []) s).
+        rewrite R1. cbn [fst snd]. unfold bindM at 1.
+        change (rename_pass2 g fr' (tab Q) [] s1) with (rename_pass2 g fr' (tab Q) (ftab []) s1).
+        rewrite R2. reflexivity.
+      * split; [exact NDH2|]. split; [exact SM2 | exact NS].
 Qed.
